@@ -5,6 +5,7 @@ violation; 3 harness error (vacuous harness, non-reproducing counterexample, tra
 validation failure, solver error).  A budget-limited (non-exhaustive) exploration exits 0 with exhaustive:false.
 """
 import concurrent.futures as cf
+import glob
 import hashlib
 import importlib
 import json
@@ -95,6 +96,8 @@ def run_property(prop, tier):
     mod = importlib.import_module(f"vflib.props.{prop.lower()}")
     parts = mod.parts(tier)
     meta = mod.META
+    for old in glob.glob(os.path.join(ROOT, "replays", f"{prop}-*.json")):
+        os.remove(old)     # replay files belong to the run that wrote them
     work = tempfile.mkdtemp(prefix=f"vf-{prop}-", dir=os.environ.get("VF_WORKDIR") or None)
     os.makedirs(os.path.join(work, "cex"))
     t0 = time.time()
